@@ -4,7 +4,7 @@
 //  (b1) `sb ...`  a standalone SimpleStringBuffer
 //  (b3) `ob ...`  a MemoryLeakOutputStringBuffer with fabricated leak nodes (exact-size content blocks)
 //  (b2) `det ...` a private MemoryLeakDetector with a recording MemoryLeakFailure
-// Observations: message bytes (hex), printed position; filled/limit (hook H2), strlen, canary, FNV of text.
+// Observations: message bytes (hex), printed position, the copy-constructed failure (equal fields, length+FNV of its message); filled/limit (hook H2), strlen, canary, FNV of text.
 #include <typeinfo>
 #include <cxxabi.h>
 #include <new>
@@ -70,6 +70,13 @@ void emit_message(const TestFailure& f) {
     size_t at = s.rfind(key);
     if (at == std::string::npos) vh::emit("pos none");
     else vh::emit("pos %llu", strtoull(s.c_str() + at + strlen(key), 0, 10));
+    // the copy constructor (what JUnit/TeamCity style reporters keep): every field must survive the copy
+    TestFailure c(f);
+    bool same = c.getMessage() == f.getMessage() && c.getFileName() == f.getFileName() && c.getTestName() == f.getTestName()
+             && c.getTestNameOnly() == f.getTestNameOnly() && c.getTestFileName() == f.getTestFileName()
+             && c.getFailureLineNumber() == f.getFailureLineNumber() && c.getTestLineNumber() == f.getTestLineNumber();
+    SimpleString cm = c.getMessage();
+    vh::emit("copy %d %lu %u", same ? 1 : 0, (unsigned long) cm.size(), fnv(cm.asCharString(), cm.size()));
 }
 
 // ---------------------------------------------------------------- (a) failure classes
